@@ -318,6 +318,25 @@ class SpyIterable(_PyBase):
         return SpyIter(iter(self._items), self.log)
 
 
+class SpySizedIterable(_PyBase):
+    """Sized and iterable, but *not* a collection (no __contains__): a lazy sized stream such as a data loader. Re-iterable
+    here, so that only the counters tell whether a check iterated it."""
+
+    def __len__(self):
+        self.log['__len__'] += 1
+        return len(self._items)
+
+    def __iter__(self):
+        self.log['__iter__'] += 1
+        return SpyIter(iter(self._items), self.log)
+
+
+class SpySizedReversible(SpySizedIterable):
+    def __reversed__(self):
+        self.log['__reversed__'] += 1
+        return SpyIter(reversed(self._items), self.log)
+
+
 class SpyContainer(_PyBase):
     """Container only: ``__contains__`` and nothing else."""
 
